@@ -217,10 +217,15 @@ class RSync:
             and not self._sourcedir.startswith("\\\\?\\")
         ):
             sourcedir = "\\\\?\\" + self._sourcedir
-        try:
-            relpath = os.path.relpath(linkpoint, sourcedir)
-        except ValueError:
-            relpath = None
+        relpath = None
+        if os.path.isabs(linkpoint):
+            # a relative link keeps denoting the corresponding place when it
+            # is copied as is; relpath() would resolve it against the
+            # caller's working directory instead of the link's directory
+            try:
+                relpath = os.path.relpath(linkpoint, sourcedir)
+            except ValueError:
+                relpath = None
         if (
             relpath is not None
             and relpath not in (os.curdir, os.pardir)
